@@ -4,11 +4,31 @@ import json, os
 VERIF = os.path.dirname(os.path.dirname(os.path.abspath(__file__)))
 BASELINE = "cd /repo && /venv/bin/python -m pytest -ra -q -p no:cacheprovider --timeout=900 --continue-on-collection-errors"
 
+TECH = 'contract-based deductive verification (AST->VC generator pyvc, z3/cvc5)'
+COMMON_NOTE = ("Trusted: the self-written VC generator pyvc and its encoding of Python semantics, z3/cvc5 unsat answers; assumed "
+               "contracts of CPython builtins (listed in the evidence); logging calls dropped; termination not proved. ")
 CLAIMED = {
- 'C01': dict(text="Deductive proof, for all inputs, that the option codec functions of the real source meet an RFC 7252 section 3 spec: extended delta/length fields equal the spec function, one iteration of the option parser equals the RFC's one-option step (so the parser is the iteration of that step), the value decoders equal their format's definition, and no exception other than UnparsableMessage can leave Options.decode. Proof is the right level: the input domain (all byte strings) is infinite and the functions are small and loop-light.",
-             ref='§4 C01', note="Trusted: pyvc VC generator, z3; assumed contracts of int.to_bytes/from_bytes, struct, bytes.decode (UTF-8 validity as uninterpreted predicate); OptionNumber.format table read from the live module; logging calls dropped.",
-             tech='contract-based deductive verification (AST->VC generator pyvc, z3/cvc5)'),
+ 'C01': dict(text="Deductive proof, for all inputs, that the option codec functions of the real source meet an RFC 7252 section 3 spec: extended delta/length fields equal the spec function, one iteration of the option parser/serialiser equals the RFC's one-option step (so parser and serialiser are the iteration of that step), value codecs equal their format's definition, Message.encode/decode equal the header layout, and no exception other than UnparsableMessage can leave the parser. Proof is the right level: the input domain (all byte strings) is infinite and the functions are small.",
+             ref='section 4 C01', note=COMMON_NOTE + "UTF-8 validity is an uninterpreted predicate; OptionNumber.format table read from the live module; the induction 'iteration of the step = RFC grammar' is a stated meta-lemma; Options.option_list sortedness assumed."),
+ 'C02': dict(text="Deductive proof of the per-call clauses of response matching: process_response delivers only to the pipe registered under the same token and endpoint, exactly once, retires the key iff the response is final; request() registers before sending, its interest-end hook removes exactly its key, after shutdown it fails immediately; dispatch_error fails exactly the pipes of that endpoint, each once, with a NetworkError; token counter/encoding lemma. Liveness (every request eventually completes) is not decided.",
+             ref='section 4 C02', note=COMMON_NOTE + "Pipe is an interface object in these contracts (A-PIPE); endpoint equality is identity of an abstract address (A-REMOTE); dictionary iteration order not modelled."),
+ 'C03': dict(text="Deductive proof that _add_exchange/_schedule_retransmit/_retransmit/_remove_exchange implement the RFC 7252 back-off: initial timeout in [ACK_TIMEOUT, ACK_TIMEOUT*ACK_RANDOM_FACTOR] of the message's own tuning, the timer callback re-enters _retransmit with the same message object, doubled timeout, counter+1; at most MAX_RETRANSMIT copies; give-up fails the endpoint's requests with ConRetransmitsExceeded (a TimeoutError/NetworkError) exactly once; ACK/RST with the same (endpoint, MID) cancels the timer, other keys change nothing; timing lemmas over reals.",
+             ref='section 4 C03', note=COMMON_NOTE + "T-LOOP (idealised call_later), A-REAL, A-IMMUT (same object = byte-identical copy)."),
+ 'C04': dict(text="Deductive proof of the deduplication functions under the MessageManager object invariant: a (endpoint, MID) seen before returns True without upcall and re-sends exactly the stored ACK/RST for CON duplicates, a new one is remembered with one expiry timer of EXCHANGE_LIFETIME that forgets exactly that key; only acknowledgements of the remembered request are ever stored; dispatch_message passes requests on only when not duplicate.",
+             ref='section 4 C04', note=COMMON_NOTE + "T-LOOP; A-REMOTE; A-OWN (the manager's dictionaries are distinct objects)."),
+ 'C10': dict(text="Deductive proof that dispatch_message realises the RFC 7252 reaction table for every (type, code class), that _process_request/send_message acknowledge a CON request exactly once (piggy-backed or empty ACK, timer callback simulated), apply the RFC 7967 No-Response mask, choose the message type as specified and never hand a CON to a multicast destination to the transport.",
+             ref='section 4 C10', note=COMMON_NOTE + "T-LOOP; A-REMOTE (as_response_address is the same endpoint value); behaviour after MessageManager.shutdown (forced NON) excluded from the piggy-back clauses; udp6 address predicates (is_multicast*) are abstract fields."),
+ 'C12': dict(text="Deductive proof that ReplayWindow implements the abstract 'seen' set: is_valid(n) iff n not seen; strike_out raises iff seen, otherwise adds exactly n (numbers falling out of the window become seen), keeps well-formedness and calls the callback once; initialisers establish the stated views. Integers used as bit fields are modelled as Int->Bool maps.",
+             ref='section 4 C12', note=COMMON_NOTE + "aiocoap.oscore is not importable here (AST only); the call-order contract of CanUnprotect.unprotect is not yet under contract."),
+ 'C14': dict(text="Deductive proof that every MessageManager entry point preserves the NSTART object invariant (an endpoint has a backlog entry iff it has exactly one open exchange; queued items are well-formed CON messages of that endpoint), that send_message queues a CON behind an open exchange at the END of the backlog and transmits otherwise, that _continue_backlog pops from the FRONT until an exchange is open again, and that give-up/transport errors drop the backlog together with a dispatch_error for the endpoint. The 'eventually' clause is reduced to this per-step progress contract.",
+             ref='section 4 C14', note=COMMON_NOTE + "T-LOOP; A-OWN; A-FRESHMSG; induction over entry points is the stated meta-argument."),
+ 'C15': dict(text="Deductive proof of RFC 8323 framing: _extract_message_size/_encode_length/_serialize/_decode_message equal the spec functions, prefix-stability and inverse lemmas, one iteration of data_received consumes exactly one complete acceptable frame (spool advanced, message dispatched once and only after CSM, signalling handled, abort on oversize/unparsable/no-CSM), empty messages ignored, signalling rules of _process_signaling, Abort = message 7.05 + close.",
+             ref='section 4 C15', note=COMMON_NOTE + "TLS/WebSocket variants and connection set-up not covered; independence of segmentation follows from the step contract plus the prefix-stability lemma (stated meta-argument)."),
+ 'C18': dict(text="Deductive proof of the per-call shutdown clauses: MessageManager.shutdown cancels every retransmission timer and drops the exchanges before the transport is shut down; afterwards send_message forces NON (no new exchange/timer), dispatch_error on either manager returns without effect, TokenManager.request fails immediately with LibraryShutdown. Completion within SHUTDOWN_TIMEOUT and 'transmits nothing' are not decided.",
+             ref='section 4 C18', note=COMMON_NOTE + "T-LOOP; only the synchronous parts before each await are specified (everything is havocked at an await)."),
 }
+for v in CLAIMED.values():
+    v['tech'] = TECH
 ALL = ['C%02d' % i for i in range(1, 21)]
 NA_DEFAULT = "check not built yet (work in progress in this session); planned per DESIGN.md section 4"
 NA = {}
